@@ -15,6 +15,16 @@ def cred (doc tok opts : String) : String :=
     | .error es => "err:" ++ ",".intercalate (es.map C02.showVErr)
   | _, _, _ => "bad-request"
 
+def ver (docs tok opts : String) : String :=
+  let m := C02.kvc (tok.drop 2).toString ";" ":"
+  match (docs.splitOn "/").mapM C02.parseDoc, C02.parseToken (tok.drop 2).toString, C02.parseOpts (opts.drop 2).toString with
+  | some ds, some t, some o =>
+    let t : Token := { t with sdOk := C02.get m "sd" != some "0", subjPropsEmpty := C02.get m "sdspe" == some "1" }
+    match verifySignature (ds.map (·.1)) t o with
+    | .ok c => "ok:" ++ C02.showCred c
+    | .error e => "err:" ++ C02.showVErr e
+  | _, _, _ => "bad-request"
+
 def oint (m : List (String × String)) (k : String) : Option (Option Int) :=
   match C02.get m k with
   | none => some none
@@ -65,6 +75,7 @@ def kb (doc ktok opts : String) : String :=
 def handle (args : List String) : String :=
   match args with
   | ["cred", doc, tok, opts] => cred doc tok opts
+  | ["ver", docs, tok, opts] => ver docs tok opts
   | ["kb", doc, tok, opts] => kb doc tok opts
   | _ => "bad-request"
 
